@@ -64,3 +64,30 @@ def check_dispatch(ck, mod, tier, parsed, found):
         name = label + (': the search is Generate(list1) iff all three types agree, Generate(list1, list2) iff type2 = type3 differs from type1, Generate(list1, list2, list3) otherwise; lists generated from type1, type2, type3 in this order' if threebody else ': Generate(list1) iff type1 = type2, Generate(list1, list2) otherwise')
         s_, mdl = smt.agg_core(ck, name, q, TO, probe=[z3.Int('free_kind') != 1])
         if s_ == 'sat': found.append(('dispatch', name, {'clause': 'dispatch', 'threebody': threebody, 'model': mdl}))
+
+def check_bonded_reset(ck, mod, tier, parsed, found):
+    """Imc::Worker::DoBonded starts every frame from an empty histogram of the interaction and leaves the other histograms alone"""
+    from symx import alloc_doubles, read_doubles
+    NB = 3; h0 = [z3.Real('hb%d' % i) for i in range(NB)]; hf0 = [z3.Real('hf%d' % i) for i in range(NB)]
+    M = models.all_models()
+    M['@__dynamic_cast'] = lambda it, a: a[0]
+    M['re:^@_ZN5votca5tools8Property3getE'] = lambda it, a: it.call('@h_prop_get', [a[1]])
+    M['re:^@_ZNK5votca5tools8Property3getE'] = lambda it, a: it.call('@h_prop_get', [a[1]])
+    def in_group(it, a):
+        for k in range(3): it.store(Ptr(a[0].obj, a[0].off + 8 * k), symx.NULL, 8)      # sret std::vector<Interaction*>: empty
+        return None
+    M['re:^@_ZN5votca3csg8Topology19InteractionsInGroupE'] = in_group
+    def body(it):
+        imc = it.call('@h_imc_setup', [NB, 0, 0]); top = it.alloc(64, 'topology(stub)')
+        p0 = alloc_doubles(it, 'h0', h0); pf = alloc_doubles(it, 'hf0', hf0); o = alloc_doubles(it, 'o', [F(0)] * NB); of = alloc_doubles(it, 'of', [F(0)] * NB)
+        it.call('@h_imc_dobonded', [imc, p0, pf, NB, top, o, of]); return read_doubles(it, o, NB), read_doubles(it, of, NB)
+    try: res, st = explore(mod, M, body, parsed=parsed, max_paths=50)
+    except symx.Unsupported as e:
+        ck.inconc('DoBonded reset: %s' % str(e)[:200]); return
+    ck.stubs |= st['models_used']
+    ck.add_witness('Imc::Worker::DoBonded from an arbitrary worker state: %d path(s)' % len(res), len(res) >= 1)
+    R = symx.Interp.R
+    q = [(list(it.pc), [z3.Not(z3.And([R(o[k]) == 0 for k in range(NB)] + [R(of[k]) == hf0[k] for k in range(NB)]))]) for it, (o, of) in res]
+    name = 'Imc::Worker::DoBonded with no interaction in the group, arbitrary previous worker histograms: the histogram of the interaction is empty afterwards (per-frame reset), the force histogram is untouched'
+    s_, mdl = smt.agg_core(ck, name, q, 30, probe=[z3.Real('free_h') != 0])
+    if s_ == 'sat': found.append(('bonded per-frame reset', name, {'clause': 'bonded-reset', 'model': mdl}))
